@@ -195,6 +195,13 @@ CmdCases == {
        "accept", "push-pop"),
   Case(Prelude \o <<L(<<A("push"), Nm(1)>>), DeclFun("loc", <<>>, SInt), Asrt(Lt(A("loc"), x)), L(<<A("pop"), Nm(1)>>), Asrt(p)>>, "accept", "push-local-declaration"),
   Case(Prelude \o <<L(<<A("push"), Nm(2)>>), Asrt(p), L(<<A("pop"), Nm(2)>>), Asrt(q)>>, "accept", "push2-pop2"),
+  \* a name defined / declared again after the level that introduced it was popped
+  Case(Prelude \o <<L(<<A("push"), Nm(1)>>), DefFun("inc", <<<<"n", SInt>>>>, SInt, SPlus(A("n"), Nm(1))), Asrt(Eq(Ap("inc", <<x>>), Nm(0))),
+                    L(<<A("pop"), Nm(1)>>), DefFun("inc", <<<<"n", SInt>>>>, SInt, Ap("-", <<A("n"), Nm(1)>>)),
+                    Asrt(Eq(Ap("inc", <<y>>), Nm(0))), Asrt(Eq(Ap("inc", <<x>>), Nm(0)))>>, "accept", "define-again-after-pop"),
+  Case(Prelude \o <<L(<<A("push"), Nm(1)>>), DeclFun("loc", <<>>, SInt), Asrt(Lt(A("loc"), x)), L(<<A("pop"), Nm(1)>>),
+                    L(<<A("push"), Nm(1)>>), DeclFun("loc", <<>>, SInt), Asrt(Lt(x, A("loc"))), L(<<A("pop"), Nm(1)>>),
+                    DeclFun("loc", <<>>, SInt), Asrt(Lt(A("loc"), y))>>, "accept", "declare-again-after-pop"),
   Case(Prelude \o <<Asrt(p), L(<<A("check-sat-assuming"), L(<<p, Ap("not", <<q>>)>>)>>)>>, "accept", "check-sat-assuming"),
   Case(Prelude \o <<L(<<A("declare-sort"), A("U"), Nm(0)>>), DeclFun("e1", <<>>, A("U")), DeclFun("h", <<A("U")>>, A("U")),
                    Asrt(Eq(Ap("h", <<A("e1")>>), A("e1")))>>, "accept", "declare-sort"),
